@@ -4,7 +4,7 @@ Seam: the WHOLE async stack (GeckoAsyncSpaMan with spa address+identifier config
 GeckoAsyncSpa handshake -> real GeckoAsyncFacade) on VLoop/VNet against the real simulator.
 
 Enumerated (fault_enumeration, bounded liveness in virtual seconds):
-  * scripts: up to 3 phases from {blackout, RF-error, lossy(every 2nd request), lossy(one whole verb)}
+  * scripts: up to 3 phases from {blackout, RF-error, lossy(every 2nd request), lossy(STATU+CURCH), lossy(all pings)}
     x durations {1, 30, 130, 400 s} starting at several points of the life cycle (before discovery,
     mid-handshake, steady state), then healthy for ever;
   * crash points: async_reset / async_set_spa_info injected at EVERY loop step of the baseline
@@ -35,7 +35,7 @@ import geckolib.config as gconfig  # noqa: E402
 from geckolib import GeckoSpaState as S  # noqa: E402
 
 DUR = [1.0, 30.0, 130.0, 400.0]
-PHASES = ["blackout", "rferr", "lossy2", "lossy-verb"]
+PHASES = ["blackout", "rferr", "lossy2", "lossy-verb", "lossy-ping"]
 STARTS = {"before-discovery": 0.0, "mid-discovery": 0.15, "mid-handshake": 0.75, "mid-transfer": 2.0, "steady": 20.0}
 
 
@@ -75,6 +75,15 @@ def _apply_phase(rig, ph):
         def drop(data, src):
             p = unframe(data)
             return bool(p and p[2][:5] in (b"STATU", b"CURCH"))
+
+        peer.drop_request = drop
+    elif ph == "lossy-ping":
+        # every ping is lost while everything else gets through: a connection can complete without one ping reply
+        peer.set_mode("healthy")
+
+        def drop(data, src):
+            p = unframe(data)
+            return bool(p and p[2][:5] == b"APING")
 
         peer.drop_request = drop
 
@@ -245,6 +254,11 @@ def run(ctx):
     for sn in ("mid-handshake", "steady"):
         for s in (doubles if not ctx.quick else doubles[::3]):
             scripts.append((sn, s))
+    # a connection made while one kind of traffic is lost, then the spa disappears for good measure
+    for sn in STARTS:
+        for ph in ("lossy-ping", "lossy2", "lossy-verb"):
+            for da in ((10.0, 30.0, 130.0) if not ctx.quick else (30.0,)):
+                scripts.append((sn, ((ph, da), ("blackout", 400.0))))
     if not ctx.quick:
         triples = [((a, 30.0), (b, 130.0), (c, 30.0)) for a in PHASES for b in PHASES for c in PHASES if a != b and b != c]
         for s in triples:
